@@ -79,7 +79,7 @@ pub fn judge(_part: &str, case: &Case, tally: &mut Tally) -> Verdict {
     }
 }
 
-fn gen_case(src: &mut Src, _i: usize) -> Case {
+pub fn gen_case(src: &mut Src, _i: usize) -> Case {
     let (cols, rows) = gen::small_size(src);
     let g = G::new(cols, rows);
     let mut case = Case::new(cols, rows, None);
@@ -119,7 +119,23 @@ fn sgr_rich(src: &mut Src, g: &G) -> String {
                     _ => (format!("{}:2::{}:{}:{}", base, r, gg, b), 1),
                 }
             }
-            3 => (src.pick(&gen::SGR_UNKNOWN).to_string(), 1),
+            3 => {
+                // an unknown code, sometimes directly in front of parameters that would
+                // be colour arguments if the unknown code were mistaken for 38/48
+                let u = gen::sgr_unknown(src);
+                match src.below(4) {
+                    0 => {
+                        // (38 / 48 as a bare follower would be a malformed colour introducer)
+                        let n = match src.below(256) {
+                            38 | 48 => 7,
+                            n => n,
+                        };
+                        (format!("{};5;{}", u, n), 3)
+                    }
+                    1 => (format!("{};2;{};{};{}", u, src.below(10), src.below(10), src.below(10)), 5),
+                    _ => (u.to_string(), 1),
+                }
+            }
             4 => (if src.chance(1, 2) { String::new() } else { "0".into() }, 1),
             5 => (src.pick(&[30usize, 31, 32, 33, 34, 35, 36, 37, 90, 91, 92, 93, 94, 95, 96, 97, 40, 41, 42, 43, 44, 45, 46, 47, 100, 101, 102, 103, 104, 105, 106, 107]).to_string(), 1),
             _ => (src.pick(&[1usize, 2, 3, 4, 5, 7, 9, 21, 22, 23, 24, 25, 27, 29, 39, 49]).to_string(), 1),
@@ -180,6 +196,17 @@ fn enum_cases() -> Vec<Case> {
                     v.push(Case::new(3, 2, None).feed(format!("\u{9b}{}:2::{}:{}:{}m", g, r, gg, b)));
                 }
             }
+        }
+    }
+    // every unknown single-part code below 121 (and a few large ones): alone, between
+    // neighbours, and directly in front of parameters that look like colour arguments
+    for u in (0..=120usize).chain([200, 255, 256, 1000, 65535]) {
+        if !gen::sgr_is_unknown(u) {
+            continue;
+        }
+        for body in [format!("{}", u), format!("1;{};4", u), format!("{};5;1", u), format!("{};2;3;4;7", u), format!("3;{};5;9;9", u), format!("{};{}", u, u), format!("32;{};2;1;2;3;44", u)] {
+            v.push(Case::new(4, 2, None).feed(format!("\x1b[{}m", body)));
+            v.push(Case::new(4, 2, None).feed("\x1b[35;46;7m").feed(format!("\u{9b}{}m", body)));
         }
     }
     // one item per control vs many per control must agree (same fold)
